@@ -146,8 +146,14 @@ def twins(draw, cfg, rmax, dtabs, t, periodic, hash0):
         ax = draw(st.integers(0, 2))
         centre[ax] = draw(st.sampled_from([0.5, -0.5])) * L[ax] + (draw(S.floats(-1.0, 1.0)) + 0.0137) * rmax
     d = _unit(draw(S.floats(-1, 1)), draw(S.floats(-1, 1)), draw(S.floats(-1, 1)))
-    ks = [draw(st.sampled_from([2, 3, 4, 4])), draw(st.sampled_from([2, 3, 4, 4]))]
-    rad = [[rmax * draw(S.floats(0.85, 1.0)) for _ in range(k)] for k in ks]
+    if draw(st.integers(0, 2)) == 0:
+        # "overtake": one largest body next to a group of somewhat smaller ones whose merger outgrows it (the survivor
+        # becomes the new largest body while the former largest is still there)
+        ks = [1, draw(st.sampled_from([2, 2, 3]))]
+        rad = [[rmax], [rmax * draw(S.floats(0.8, 0.93)) for _ in range(ks[1])]]
+    else:
+        ks = [draw(st.sampled_from([2, 3, 4, 4])), draw(st.sampled_from([2, 3, 4, 4]))]
+        rad = [[rmax * draw(S.floats(0.85, 1.0)) for _ in range(k)] for k in ks]
     rg = [sum(r ** 3 for r in rr) ** (1.0 / 3.0) for rr in rad]
     D = draw(st.one_of(S.floats(0.55, 0.98), S.floats(0.85, 0.98), S.floats(0.85, 0.98))) * (rg[0] + rg[1])
     u = draw(S.logfloats(1e-2, 3.0)) * rmax / dtabs
@@ -314,6 +320,19 @@ def build_sim(case, integrator="none"):
     allp = case["particles"] + make_dust(case)
     if not valid_points(allp, cfg):
         return None
+    if integrator != "none":
+        # the generated configuration is the END of the step: start every particle one step earlier on its straight path
+        start = []
+        for q in allp:
+            pl = place([q["x"] - cfg["dt"] * q["vx"], q["y"] - cfg["dt"] * q["vy"], q["z"] - cfg["dt"] * q["vz"]],
+                       [q["vx"], q["vy"], q["vz"]], cfg, cfg["t0"])
+            if pl is None:
+                continue
+            x, v = pl
+            start.append(dict(q, x=float(x[0]), y=float(x[1]), z=float(x[2]), vy=float(v[1])))
+        allp = start
+        if len(allp) < 2 or not valid_points(allp, cfg):
+            return None
     fast_add(sim, allp)
     return sim
 
@@ -375,7 +394,7 @@ def nontrivial(ctx, case, s, must, R, t, dtl):
 
 def maxrad(sim):
     try:
-        return [sim.max_radius0, sim.max_radius1]
+        return [float(x) for x in sim.max_radius]
     except AttributeError:
         return None
 
@@ -820,6 +839,15 @@ def run_merge_hist(case, ctx):
         if left:
             raise Violation("particles vanished without being merged into a survivor: hashes %s" % sorted(left)[:5])
         check_conservation(s0, s1, R, len(gone), "merge (%s, step %d)" % (mode, nsteps), ctx)
+        if tree:
+            # the tree searches prune cells with the two largest radii: after every step the recorded maxima must
+            # bound the two largest radii present, or a pair of the two largest bodies can be skipped
+            mr = maxrad(sim)
+            rr = np.sort(s1["r"])[::-1]
+            if mr is not None and len(rr) >= 2 and (mr[0] < rr[0] or mr[1] < rr[1]):
+                raise Violation("%s search: recorded largest radii (%r, %r) are smaller than the two largest radii "
+                                "present (%r, %r) after a step with mergers: the pruning bound is too small for that pair"
+                                % (mode, mr[0], mr[1], float(rr[0]), float(rr[1])), step=nsteps)
         # completeness: no clearly colliding pair may be left with both members untouched
         for pr in sorted(must):
             hi, hj = int(s0["hash"][pr[0]]), int(s0["hash"][pr[1]])
